@@ -143,8 +143,12 @@ class AddedDiagLinearOperator(SumLinearOperator):
         return (precondition_closure, self._precond_lt, self._precond_logdet_cache)
 
     def _init_cache(self):
-        *batch_shape, n, k = self._piv_chol_self.shape
         self._noise = self._diag_tensor._diagonal().unsqueeze(-1)
+        # (the low-rank factor of an un-batched linear_op broadcasts against a batched diagonal, and vice versa)
+        batch_shape = torch.broadcast_shapes(self._piv_chol_self.shape[:-2], self._noise.shape[:-2])
+        self._piv_chol_self = self._piv_chol_self.expand(*batch_shape, *self._piv_chol_self.shape[-2:])
+        self._noise = self._noise.expand(*batch_shape, *self._noise.shape[-2:])
+        *batch_shape, n, k = self._piv_chol_self.shape
 
         # the check for constant diag needs to be done carefully for batches.
         noise_first_element = self._noise[..., :1, :]
